@@ -125,7 +125,7 @@ def feederFuel (fd : Feeder) : Nat := 2 * (fd.numBlocks + 1 - fd.block) + 4
 
 /-- decoder states, by CAB method -/
 inductive Dec
-  | none (bufsize : Nat)
+  | none (bufsize : Nat) (error : Err)      -- `noned_state`: buffer size, sticky error
   | mszip (st : Zip.St Feeder)
   | qtm (st : Qtm.St Feeder)
   | lzx (st : Lzx.St Feeder)
@@ -144,17 +144,17 @@ structure DecOut where
   dec     : Dec
   feeder  : Feeder
 
-/-- `noned_decompress` -/
+/-- `noned_decompress` (the loop; the sticky-error test is in `decompress`) -/
 def nonedDecompress (files : Files) (bufsize : Nat) : Nat → Feeder → Nat → Bytes → Except Fault DecOut
   | 0, _, _, _ => .error .hang
   | fuel + 1, fd, bytes, w =>
-    if bytes = 0 then .ok ⟨.ok, w, .none bufsize, fd⟩ else
+    if bytes = 0 then .ok ⟨.ok, w, .none bufsize .ok, fd⟩ else
     let run := if bytes > bufsize then bufsize else bytes
     match feederRead files (feederFuel fd) fd run [] with
     | .error f => .error f
-    | .ok (none, fd) => .ok ⟨.read, w, .none bufsize, fd⟩
+    | .ok (none, fd) => .ok ⟨.read, w, .none bufsize .read, fd⟩
     | .ok (some got, fd) =>
-      if got.length ≠ run then .ok ⟨.read, w, .none bufsize, fd⟩
+      if got.length ≠ run then .ok ⟨.read, w, .none bufsize .read, fd⟩
       else nonedDecompress files bufsize fuel fd (bytes - run) (w ++ got)
 
 inductive ExtractResult
@@ -173,7 +173,9 @@ def decFuel (files : Files) : Nat := 16 * (files.foldl (fun a f => a + f.2.lengt
 
 def decompress (files : Files) (dec : Dec) (fd : Feeder) (bytes : Nat) : Except Fault (Option DecOut) :=
   match dec with
-  | .none bs => (nonedDecompress files bs (bytes / (max bs 1) + 2) fd bytes []).map some
+  | .none bs e =>
+    if e ≠ .ok then .ok (some ⟨e, [], dec, fd⟩)
+    else (nonedDecompress files bs (bytes / (max bs 1) + 2) fd bytes []).map some
   | .mszip st =>
     -- the decoder state carries the feeder (its `input` handle is the CAB instance)
     match Zip.decompress (feederSrc files) (decFuel files) { st with src := fd } bytes with
@@ -215,7 +217,7 @@ def nullFeeder : Feeder :=
 
 def initDec (p : Params) (ct : Nat) : Option Dec :=
   match compMask ct with
-  | 0 => some (.none p.bufSize)
+  | 0 => some (.none p.bufSize .ok)
   | 1 => (Zip.init nullFeeder p.bufSize p.fixMszip p.fill).map .mszip
   | 2 => if Qtm.implemented then (Qtm.init nullFeeder ((ct >>> 8) &&& 0x1f) p.bufSize p.fill).map .qtm
          else some (.unsupported 2)
